@@ -18,7 +18,7 @@ import numpy as _rnp
 import z3
 
 from . import core
-from .core import SymInt, SymBool, SymReal, Inconclusive, Budget, eng, zint, zbool, zreal, is_sym, concrete_int
+from .core import SymInt, SymBool, SymReal, Inconclusive, Abort, Budget, eng, zint, zbool, zreal, is_sym, concrete_int
 from . import strs
 
 WHERE_POLICY = "symlen"      # or "concrete"
@@ -450,7 +450,15 @@ class Arr(object):
     def __repr__(self):
         return "symnp.Arr(shape=%s, dtype=%s%s)" % (self.shape, self.dtype, ", symbolic length" if self.n is not None else "")
 
-    __str__ = __repr__
+    def __str__(self):
+        # str(array) as the code under test sees it: numpy's own rendering of the (concretised, forking) content, including the
+        # "..." summary of long arrays; outside an exploration (messages of the harness itself) the symbolic description
+        try:
+            return str(self.to_numpy())
+        except (Abort, Inconclusive):
+            raise
+        except Exception:
+            return self.__repr__()
 
     def _symx_type(self):
         return _rnp.ndarray
